@@ -27,6 +27,7 @@ def paired(rep, thorough):
         with_ov = r0.random() < 0.35
         strip = r0.random() < 0.4
         nodecay = r0.random() < 0.4
+        cold = r0.random() < 0.35
         for k, ps in enumerate(sets):
             # (every third set-up with travel-time, decaying, one-way, sewer and weir arcs: the same classes and travel times
             # under every pollutant configuration; what differs is what the water carries, e.g. on a dry day)
@@ -39,6 +40,23 @@ def paired(rep, thorough):
                 for nd in cfg["nodes"]:
                     if nd["type_"] in ("WWTW", "FWTW"):
                         nd.pop("process_parameters", None)
+            if cold and k == 1:
+                # "whatever their concentrations are": in this configuration every non-additive quality (temperature, pH) is
+                # zero throughout - initial contents and forcing - so an empty flux is all zeros
+                nons = set(NG.POLSETS[ps][1])
+
+                def zero(x):
+                    if isinstance(x, dict):
+                        for kk in list(x):
+                            if kk in nons or (isinstance(kk, tuple) and kk[0] in nons):
+                                x[kk] = x[kk] * 0
+                            else:
+                                zero(x[kk])
+                    elif isinstance(x, list):
+                        for y in x:
+                            zero(y)
+                for nd in cfg["nodes"]:
+                    zero(nd)
             if nodecay and k == 1:
                 # "different decay parameters": this configuration has no pollutant decay in its stores at all
                 for nd in cfg["nodes"]:
